@@ -370,7 +370,10 @@ def _run_check(prop, tier, spec, seed, t0, workdir):
                 cmd += ["-rapid.checks=%d" % checks, "-rapid.seed=%d" % rseed, "-rapid.shrinktime=%s" % t.get("shrinktime", "30s"), "-rapid.nofailfile=false"]
             specs.append(dict(name=tag, test=t, cmd=cmd, env=env, cwd=cwd, log=os.path.join(workdir, tag + ".log"),
                               timeout=timeout + 30, stats=env["VERIF_STATS"], checks=checks))
-    results = run_procs(specs, int(os.environ.get("VERIF_PAR", "16")))
+    max_par = int(os.environ.get("VERIF_PAR", "16"))
+    for sp in specs:
+        max_par = min(max_par, int(sp["test"].get("par", max_par)))
+    results = run_procs(specs, max(1, max_par))
     short_runs = []
     fuzz_execs = [0]
     for s, rc, timed_out in results:
